@@ -97,7 +97,7 @@ def gen_writes(rng: random.Random, n: int, ids, splits, meta_mode: str,
                     w["meta"] = [rng.choice(["reord", "same", "val"]),
                                  prev[1]]
             else:
-                w["meta"] = [rng.choice(["val", "val", "same", "mut"]),
+                w["meta"] = [rng.choice(["val", "val", "same", "mut", "nest"]),
                              rng.randrange(len(META_VALUES))]
             if rng.random() < 0.15:
                 w.pop("meta", None)
@@ -246,6 +246,15 @@ def resolve_meta(spec, shared: dict):
         # an equal dict with the opposite key insertion order
         return dict(reversed(list(copy.deepcopy(val).items()))), \
             copy.deepcopy(val)
+    if kind == "nest":
+        # one object the caller keeps: only values *inside* its nested dict
+        # and list are updated in place between writes
+        if shared.get("k") != "nest":
+            shared.clear()
+            shared.update({"k": "nest", "deep": {}, "n": []})
+        shared["deep"]["x"] = spec[1]
+        shared["n"][:] = [spec[1]]
+        return shared, {"k": "nest", "deep": {"x": spec[1]}, "n": [spec[1]]}
     if kind == "mut":
         shared.clear()
         shared.update(copy.deepcopy(val))
